@@ -132,10 +132,24 @@ func c20DecoderAccepted(w *core.W, j int) {
 		{0, 1, 0, 3, 2, 'h', '2', 0, 1, 0, 3, 2, 'h', '2'}, // alpn twice
 		{0, 4, 0, 0}, {0, 6, 0, 0}, {0, 2, 0, 0}, // empty hint lists, no-default-alpn
 	}
-	for _, t := range []uint16{64, 65} {
-		for pi, p := range params {
+	// APL items whose address carries bits beyond the prefix length (the decoder keeps them)
+	apl := [][]byte{
+		{0, 1, 8, 4, 10, 1, 2, 3},
+		{0, 1, 22, 0x84, 198, 51, 103, 255},
+		{0, 2, 35, 6, 0x20, 0x01, 0x0d, 0xb8, 0xff, 0xff},
+		{0, 1, 0, 1, 7, 0, 1, 24, 3, 192, 0, 2},
+	}
+	for _, t := range []uint16{64, 65, 42, 42} {
+		ps := params
+		if t == 42 {
+			ps = apl
+		}
+		for pi, p := range ps {
 			rd := append([]byte{0, byte(1 + g.R.IntN(3))}, model.Name{[]byte("target"), []byte("example")}.Wire()...)
 			rd = append(rd, p...)
+			if t == 42 {
+				rd = append([]byte(nil), p...)
+			}
 			wire := append([]byte(nil), owner.Wire()...)
 			wire = binary.BigEndian.AppendUint16(wire, t)
 			wire = binary.BigEndian.AppendUint16(wire, 1)
@@ -145,11 +159,11 @@ func c20DecoderAccepted(w *core.W, j int) {
 			a, _, e1 := dns.UnpackRR(wire, 0)
 			b, _, e2 := dns.UnpackRR(append([]byte(nil), wire...), 0)
 			if e1 != nil || e2 != nil || a == nil || b == nil {
-				w.Count("decoder_refused_odd_svcb", 1)
+				w.Count("decoder_refused_odd_records", 1)
 				continue
 			}
 			w.Eval(1)
-			w.Count("decoder_accepted_odd_svcb", 1)
+			w.Count("decoder_accepted_odd_records", 1)
 			wit := map[string]any{"wire": hx(wire), "params": pi}
 			w.Guard("IsDuplicate", wit, func() {
 				if !dns.IsDuplicate(a, a) || !dns.IsDuplicate(a, dns.Copy(a)) || !dns.IsDuplicate(dns.Copy(a), a) {
